@@ -138,7 +138,7 @@ class FPAdder_SP(Logic):
         # it is enough with 5 bits for ediff
         # Also we know ediff will be always positive
 
-        ediff = self.wire('ediff', 5)
+        ediff = self.wire('ediff', 8)
         Sub(self, 'ediff', ea, eb, ediff)
         
         mb3 = self.wire('mb3', mb.getWidth())
